@@ -423,11 +423,18 @@ between taking `mu` and releasing it — one critical section per call (`Gen.mem
 from the Go AST on every run).  That Go's `sync.RWMutex` then makes those sections atomic is assumed. -/
 theorem code_methods_atomic : Gen.memMethodsAtomic = true := by decide
 
+/-- The theorems of this file are about comparers under which equal keys are the same bytes (`LawfulUCmp.eq_of`);
+there an overwrite never changes the key's length.  For the comparers outside that class (lawful, but calling keys of
+different lengths equal) the code keeps the node in step with the key it appends since the repair of D56 — the
+regenerated fact below — and the check exercises such a comparer against a map keyed by canonical forms
+(`harness/checks/c14ninj.go`). -/
+theorem code_put_sets_key_length : Gen.memPutSetsKeyLenOnOverwrite = true := by decide
+
 end GoLevel.C14
 
 namespace GoLevel
 def C14.theorems : List String :=
-  ["GoLevel.C14.lawful_bytewise", "GoLevel.C14.inv_preserved", "GoLevel.C14.memdb_refines_map",
+  ["GoLevel.C14.code_put_sets_key_length", "GoLevel.C14.lawful_bytewise", "GoLevel.C14.inv_preserved", "GoLevel.C14.memdb_refines_map",
    "GoLevel.C14.memdb_refines_map_bytewise", "GoLevel.C14.concurrent_readers_partial",
    "GoLevel.C14.code_methods_atomic", "GoLevel.C14.memarr_simulates_ideal", "GoLevel.C14.memarr_refines_map",
    "GoLevel.C14.memarr_refines_map_bytewise", "GoLevel.C14.memarr_kvdata_append_only", "GoLevel.C14.concurrent_readers",
